@@ -305,12 +305,12 @@ def compare_template(ctx, tpl, data):
         js = json.dumps(tpl)
         if data is None:
             mech = "null-document-as-empty-object"
+        elif '.$": "States.' in js and template_intrinsic_mechanism(tpl, data):
+            mech = template_intrinsic_mechanism(tpl, data)         # one of its own intrinsic expressions disagrees on its own, for a listed reason
         elif not isinstance(data, (dict, list)) and '.$": "$"' in js:
             mech = "template-root-path-primitive"
         elif _array_string_dollar(tpl):
             mech = "template-array-literal-dollar-suffix"
-        elif '.$": "States.' in js:
-            mech = template_intrinsic_mechanism(tpl, data)
         ctx.violation("template-disagrees-with-reference", dict(template=tpl, input=data, expected=[exp[0]] + ([I.describe(exp[1])] if exp[0] == "val" else []),
                                                                  engine=list(got)), mech)
 
@@ -341,7 +341,8 @@ def template_intrinsic_mechanism(tpl, data):
             for x in t:
                 walk(x)
     walk(tpl)
-    return mechs.pop() if len(mechs) == 1 else None
+    # several expressions may disagree, each for a listed reason; an expression that disagrees for no listed reason keeps the violation unlisted
+    return sorted(mechs)[0] if mechs and None not in mechs else None
 
 
 def _array_string_dollar(t):
